@@ -60,11 +60,25 @@ from pyiron_workflow.storage import PickleStorage  # noqa: E402
 CLO = 1000      # a leaf with k >= CLO hands its number on wrapped in a closure: plain pickle cannot store it
 
 
+BOX = 500       # a leaf with BOX <= k < CLO hands its number on inside an object WITHOUT value equality (a copy of
+                # it is not == to it): remembered inputs can only be recognised by identity, which pickle preserves
+
+
+class Box:
+    def __init__(self, v):
+        self.v = v
+
+    def __call__(self):
+        return self.v
+
+
 def _unwrap(v):
     return v() if callable(v) else v
 
 
 def _wrap(k, v):
+    if BOX <= k < CLO:
+        return Box(v)
     if k < CLO:
         return v
 
@@ -733,6 +747,8 @@ def with_clo(tree, rng, prob):
     for p, s in walk(t):
         if s[0] == "L" and rng.random() < prob:
             s[1] = CLO + s[1] % 100
+        elif s[0] == "L" and rng.random() < prob / 2:
+            s[1] = BOX + s[1] % 100
     return t
 
 
